@@ -67,6 +67,14 @@ def prop_twin(ctx, case):
     a = [int.from_bytes(d[8 * i:8 * i + 8], 'little') for i in range(4)]
     e = [err] + list(S.expand_words(seed + 4096, 1))[1:]
     lookups = [b'/tw%d/%s' % (i, domains.ascii_text((seed, i, 1, 1), 40)) for i in range(nlook)]
+    if seed % 3 == 0:
+        # another parser object, built on a supplied table that lacks these two names, sees the same ids first
+        trimmed = {i: n for i, n in EV.default_codes().items() if n not in (nc, base)}
+        other = EV.new_traces_parser(codes=trimmed)
+        stream = [EV.E(0x34, c, q, args=a if q == 1 else e) for c in (base, nc) for q in (1, 2)]
+        leaked = [str(t) for t in guard(lambda: list(other.feed_generator(EV.realize(stream))))]
+        if leaked:
+            raise Violation(f'decoded-without-table-entry:{nc}', f'a table without {base}/{nc} still decodes them: {leaked}')
     t_nc = guard(render, nc, a, e, lookups)
     t_base = guard(render, base, a, e, lookups)
     if t_nc.count('_nocancel(') != 1 or not t_nc.split('(')[0].endswith('_nocancel'):
